@@ -17,9 +17,10 @@ PY_CORE2 = PY_CORE + " PyLibCore2 PySrcCore2 PySrcCore2Facts PySrcInitFacts"    
 PY_MIN = "PyLib PyLibSd PyLibCore PyLibSd2 PySrcSdBase PySrcSdMin PySrcSdMinFacts"   # _sd_algorithms/expand_minimal_spaces.py
 PY_PERC = "PyLib PyLibSd PyLibPerc PySrcPerc PySrcPercFacts PyLibDrivers PySrcDrivers PySrcDriversFacts"       # space_utils.percolate_space_strict, percolation_conflicts
 PY_SCC = "PyLib PyLibSd PyLibCore PyLibSd2 PyLibScc PySrcSdBase PySrcSdScc PySrcSdSccFacts"     # expand_source_SCCs.attach_scc_subdiagram
+PY_SCCMAIN = PY_SCC + " Control PyLibControl PySrcSdSccMain PySrcSdSccMainFacts"     # expand_source_SCCs.expand_source_SCCs
 PY_CONTROL = "PyLib PyLibSd PyLibPerc PyLibCore PyLibControl PySrcControl PySrcControlFacts PySrcFindDriversFacts PySrcControlCorollaries"    # control.find_drivers, drivers_of_succession
 PY_ASEEDS = PY_MIN + " Candidates Blocks ASeeds PySrcSdASeeds PySrcSdASeedsFacts"     # _sd_algorithms/expand_attractor_seeds.py
-EXTRA_IMPORTS = {"C02": PY_SD + " " + PY_CORE2 + " PySrcEndToEnd", "C03": PY_SD + " " + PY_ASEEDS + " PySrcComplFacts", "C04": PY_SD + " " + PY_CORE, "C05": PY_CORE2 + " " + PY_MIN, "C13": PY_SD + " " + PY_TARGET + " " + PY_ASEEDS + " PySrcTermFacts", "C14": PY_CORE2 + " " + PY_SCC, "C15": PY_SD + " " + PY_TARGET + " " + PY_ASEEDS, "C16": "PyLib PyLibPickle PySrcPickle PySrcPickleFacts " + PY_CORE2,
+EXTRA_IMPORTS = {"C02": PY_SD + " " + PY_CORE2 + " PySrcEndToEnd", "C01": PY_SCCMAIN, "C03": PY_SD + " " + PY_ASEEDS + " PySrcComplFacts " + PY_SCCMAIN, "C04": PY_SD + " " + PY_CORE, "C05": PY_CORE2 + " " + PY_MIN, "C13": PY_SD + " " + PY_TARGET + " " + PY_ASEEDS + " PySrcTermFacts", "C14": PY_CORE2 + " " + PY_SCC, "C15": PY_SD + " " + PY_TARGET + " " + PY_ASEEDS, "C16": "PyLib PyLibPickle PySrcPickle PySrcPickleFacts " + PY_CORE2,
                  "C06": PY_SPACE + " " + PY_TARGET + " PySrcEndToEndControl " + PY_CONTROL, "C07": PY_CONTROL, "C10": PY_PLACE, "C11": PY_PERC, "C19": PY_SD + " " + PY_CORE, "C20": PY_KEY + " " + PY_CORE2 + " PyLibSd PyLibPerc PySrcIso PySrcIsoFacts"}
 
 def imports_for(pid):
@@ -54,7 +55,9 @@ the contract of the recorded tape -- every block reported clean has no motif-avo
 decide on every replayed run.  The source-SCC strategy is modelled (SCC.v) and replayed id by id against expand_scc, but the
 'exactly one' clause fails for it: KNOWN FINDING D15, formally D15_refuted (two different expanded nodes own one attractor);
 the 'at least one' clause holds: expand_scc_AttrServed / expand_scc_every_attractor_reported (no attractor is lost).""",
- theorems=[("filter_exact", "filter_exact", "given covering candidates, the filter returns exactly one seed per attractor of the node, and the sets are the attractors"),
+ theorems=[("source_expand_source_SCCs", "py_expand_source_SCCs_spec", "translator tie: the function GENERATED from the current text of expand_source_SCCs.expand_source_SCCs (PySrcSdSccMain.v: root sources, BFS over the levels, recursion through the default expander into the sub-diagrams of the source SCCs, attachment by the generated attach_scc_subdiagram) does what the model's SCC.scc_main does on every diagram satisfying SCCTerm.SI, for every fuel, tape and nesting depth"),
+           ("source_expand_source_SCCs_fresh", "py_expand_source_SCCs_fresh", None),
+           ("filter_exact", "filter_exact", "given covering candidates, the filter returns exactly one seed per attractor of the node, and the sets are the attractors"),
            ("filter_exact_seeds_only", "filter_exact_seeds_only", "the seeds_only shortcut (last candidate of a pseudo-minimal node) is sound"),
            ("check_seeds_ok", "check_seeds_ok", "the verdict predicate run on the implementation's output is exact"),
            ("attractors_sound", "attractors_b_sound", "the brute-force attractor list used as oracle: every element is an attractor"),
@@ -143,7 +146,9 @@ strongly connected, pairwise disjoint sets of source_sccs_spec, every node it cr
 leaves every node expanded with the expanded leaves being exactly the minimal trap spaces (expand_scc_AllExpanded,
 expand_scc_LeafOK, expand_scc_MinFound) -- although the diagram it builds is not faithful (D15).  So every strategy of the
 statement has a theorem.""",
- theorems=[("source_text_expand_minimal_spaces_complete", "py_expand_minimal_spaces_complete", "C03 for the SOURCE TEXT: when the generated public methods report completion, every minimal trap space is found / everything is expanded"),
+ theorems=[("source_expand_source_SCCs", "py_expand_source_SCCs_spec", "translator tie: the function GENERATED from the current text of expand_source_SCCs.expand_source_SCCs (PySrcSdSccMain.v: root sources, BFS over the levels, recursion through the default expander into the sub-diagrams of the source SCCs, attachment by the generated attach_scc_subdiagram) does what the model's SCC.scc_main does on every diagram satisfying SCCTerm.SI, for every fuel, tape and nesting depth"),
+           ("source_expand_source_SCCs_fresh", "py_expand_source_SCCs_fresh", None),
+           ("source_text_expand_minimal_spaces_complete", "py_expand_minimal_spaces_complete", "C03 for the SOURCE TEXT: when the generated public methods report completion, every minimal trap space is found / everything is expanded"),
            ("source_text_expand_attractor_seeds_complete", "py_expand_attractor_seeds_MinFound", None), ("source_text_expand_bfs_complete", "py_expand_bfs_complete", None), ("source_text_expand_dfs_complete", "py_expand_dfs_complete", None),
            ("source_expand_minimal_spaces", "py_expand_minimal_spaces_spec", "translator tie: the function GENERATED from the current text of biobalm/_sd_algorithms/expand_minimal_spaces.py (with its nested make_skip_node; PySrcSdMin.v) equals the model's expand_min on every well-formed diagram, for every start node, limit, skip option and fuel, given the tape contract"),
            ("source_public_expand_minimal_spaces", "py_api_expand_minimal_spaces_spec", None),
